@@ -167,7 +167,7 @@ def check_case(case):
         # reading the derived values before anything is set must not freeze them
         [getattr(params, n + "_squared") for n in SQUARED]
         for i, (line, item) in enumerate(seq):
-            params.parse_line(line + "\n")
+            params.parse_line(line + ("\n" if i % 3 else ""))      # every third line unterminated
             item = list(item)
             if item[0] == "matrix":
                 item[2] = list(item[2])
@@ -178,7 +178,7 @@ def check_case(case):
         # the same text through the file reader
         path = os.path.abspath("c18_case.cfg")
         with open(path, "w") as fh:
-            fh.write("\n".join(l for l, _ in seq) + "\n")
+            fh.write("\n".join(l for l, _ in seq) + ("\n" if len(seq) % 2 else ""))   # last line with / without newline
         p2 = read_parameter_file(path, Parameters())
         v = compare(p2, model, names, "read_parameter_file")
     except Exception as e:
